@@ -691,7 +691,9 @@ class Merge(MultiCrossBlock):
         else:
             alignment = normalize_alignment(who, alignment)
         for b in blocks:
-            if b.alignment != alignment:
+            # A block with a single crossing has nothing to align, so its (default)
+            # alignment can't conflict with the requested one
+            if b.alignment != alignment and len(b.crossings) > 1:
                 raise ValueError(who, "Blocks have different alignments.")
         mode = normalize_mode(who, mode)
 
